@@ -335,6 +335,7 @@ def playback_values(h, target_dir, extra, env, mem_kb, timeout_s):
     with open(os.path.join(BUILD, "playback-%s.log" % h["name"]), "w") as f:
         f.write(out)
     tests = []
+    cover_vals = []
     for blk in re.split(r"Concrete playback unit test for", out)[1:]:
         chk = re.search(r'/// Check for `([^`]*)`: "(.*)"', blk)
         m = re.search(r"let concrete_vals: Vec<Vec<u8>> = vec!\[(.*?)\n\s*\];", blk, re.S)
@@ -344,8 +345,15 @@ def playback_values(h, target_dir, extra, env, mem_kb, timeout_s):
         for vm in re.finditer(r"vec!\[([^\]]*)\]", m.group(1)):
             vals.append([int(x) for x in vm.group(1).split(",") if x.strip()])
         if chk and chk.group(1) == "cover":
+            cover_vals.append(vals)
             continue  # a satisfied cover is a witness, not a counterexample
         tests.append((chk.group(2) if chk else "?", vals))
+    if not tests and cover_vals and all(v == cover_vals[0] for v in cover_vals):
+        # Kani prints one test per distinct value vector: a harness without (relevant) nondeterministic inputs
+        # yields a single vector, labelled with whichever property came first. The native replay decides.
+        m = re.findall(r"Failed Checks: (.*)", out)
+        if m:
+            tests.append((m[0].strip(), cover_vals[0]))
     return tests
 
 
